@@ -273,6 +273,8 @@ class LegInterp:
                 r = self.diag_product(a, b, e)
                 if r is not None:
                     return r
+                if isinstance(a, TVal) or isinstance(b, TVal):
+                    raise LegError(f'`{norm(e)[:50]}`: matrix product with an operand outside the leg domain')
             return Scalar(norm(e))
         if isinstance(e, ast.Call):
             return self.call(e)
@@ -385,6 +387,22 @@ class LegInterp:
                 raise LegError(f'tensordot `{norm(e)[:60]}` with non-tensor operands')
             ia, ib = _axes(axn, a.rank, b.rank)
             return lg.tensordot(a, b, ia, ib, f'tensordot at line {e.lineno}')
+        if f == 'np.einsum' and e.args and isinstance(e.args[0], ast.Constant) and isinstance(e.args[0].value, str):
+            # subscripts-string form: 'iab,icb->ac' (explicit output only; no ellipsis, no repeated label in one operand)
+            spec = e.args[0].value.replace(' ', '')
+            if '->' not in spec or '.' in spec:
+                raise LegError(f'einsum `{spec}`: implicit output / ellipsis is not in the leg domain')
+            ins, out = spec.split('->')
+            ins = ins.split(',')
+            vals = [self.ev(a) for a in e.args[1:]]
+            if len(ins) != len(vals) or not all(isinstance(v, TVal) for v in vals):
+                raise LegError(f'einsum `{spec}`: operands do not match the subscripts')
+            letters = sorted(set(''.join(ins)))
+            num = {c: k for k, c in enumerate(letters)}
+            labs = [tuple(num[c] for c in i) for i in ins]
+            if any(len(set(l)) != len(l) for l in labs) or any(len(l) != v.rank for l, v in zip(labs, vals)):
+                raise LegError(f'einsum `{spec}`: repeated label inside one operand / rank mismatch')
+            return lg.einsum(vals, labs, tuple(num[c] for c in out))
         if f == 'np.einsum':
             args = list(e.args)
             ops, labs = [], []
@@ -404,7 +422,10 @@ class LegInterp:
                 raise LegError('einsum: output labels missing')
             out = _int_tuple(args[0])
             return lg.einsum(ops, labs, out)
-        if isinstance(e.func, ast.Attribute) and e.func.attr == 'conj' and not e.args:
+        if f in ('np.conj', 'np.conjugate') and len(e.args) == 1:
+            v = self.ev(e.args[0])
+            return lg.conj(v) if isinstance(v, TVal) else v
+        if isinstance(e.func, ast.Attribute) and e.func.attr in ('conj', 'conjugate') and not e.args:
             v = self.ev(e.func.value)
             return lg.conj(v) if isinstance(v, TVal) else v
         if isinstance(e.func, ast.Attribute) and e.func.attr == 'transpose':
